@@ -375,3 +375,91 @@ func kvString(m map[string]string) string {
 	}
 	return strings.Join(parts, ", ")
 }
+
+// ResumeState: fnRef rebuilds the state of a writer (struct appRef) from the state a reader
+// (struct itRef) has after reading everything written so far.  In the construction site with
+// the most fields (the resume site; an "empty" site with fewer fields may precede it):
+//   - every writer field filled from the reader is filled from exactly one reader field, the one
+//     with the same name or the one declared in pairs (writer field → reader field, with the
+//     reason the two play the same role in the codec);
+//   - every writer field that a method of the writer assigns (loop-carried codec state) is set,
+//     except the listed ones.
+// A writer that resumes from a different state than the reader reached encodes the next sample
+// against a base the reader does not have.
+func (c *Ctx) ResumeState(rule, fnRef, appRef, itRef string, pairs map[string]string, except map[string]string) bool {
+	f := c.Fn(fnRef)
+	what := fmt.Sprintf("%s resumes every state field of %s from the matching field of %s", short(fnRef), short(appRef), short(itRef))
+	fms := f.FieldMaps(appRef, itRef)
+	if len(fms) == 0 {
+		c.Fail(rule, fnRef, what, c.P.Pos(f.Body.Pos()), "no construction site of "+appRef+" (rule instance vanished)")
+		return false
+	}
+	fm := fms[0]
+	for _, m := range fms[1:] {
+		if len(m.Keys) > len(fm.Keys) {
+			fm = m
+		}
+	}
+	var bad []string
+	set := map[string]bool{}
+	for _, k := range fm.Keys {
+		set[k] = true
+		var from []string
+		for _, s := range fm.Reads[k] {
+			if !strings.HasPrefix(s, "$") {
+				from = append(from, s)
+			}
+		}
+		if len(from) == 0 {
+			continue
+		}
+		want := k
+		if p, ok := pairs[k]; ok {
+			want = p
+		}
+		if len(from) != 1 || from[0] != want {
+			bad = append(bad, fmt.Sprintf("%s is resumed from {%s}, its counterpart in the reader is %s", k, strings.Join(from, ", "), want))
+		}
+	}
+	app := c.P.Named(appRef)
+	st, _ := app.Underlying().(*types.Struct)
+	if st == nil {
+		undecided("%s is not a struct", appRef)
+	}
+	ix := c.P.Index()
+	for i := 0; i < st.NumFields(); i++ {
+		fv := st.Field(i)
+		if _, ex := except[fv.Name()]; ex || set[fv.Name()] {
+			continue
+		}
+		mutated := false
+		for _, s := range ix.FieldSites(fv, "store", "incdec", "addr", "store-elem", "incdec-elem") {
+			if s.In == nil {
+				continue
+			}
+			if sig, ok := s.In.Type().(*types.Signature); ok && sig.Recv() != nil && isNamedOrPtr(sig.Recv().Type(), app) {
+				mutated = true
+			}
+		}
+		if mutated {
+			bad = append(bad, fmt.Sprintf("%s is codec state (assigned in a method of %s) but is not resumed", fv.Name(), short(appRef)))
+		}
+	}
+	if len(bad) > 0 {
+		sort.Strings(bad)
+		c.Fail(rule, fnRef, what, fm.Pos, strings.Join(bad, "; "))
+		return false
+	}
+	c.Pass(rule, fnRef, what, fmt.Sprintf("%d fields at %s", len(fm.Keys), fm.Pos))
+	return true
+}
+
+// MethodsOf returns the declared methods (with bodies) of the named type.
+func (c *Ctx) MethodsOf(typeRef string) []*Fn {
+	n := c.P.Named(typeRef)
+	var out []*Fn
+	for i := 0; i < n.NumMethods(); i++ {
+		out = append(out, c.Fn(typeRef+"."+n.Method(i).Name()))
+	}
+	return out
+}
